@@ -7,6 +7,9 @@
 #include <Vector/BLF.h>
 #include <Vector/BLF/VarObjectHeader.h>
 
+#include <signal.h>
+#include <unistd.h>
+
 #include <algorithm>
 #include <cstdio>
 #include <cstdlib>
@@ -182,6 +185,10 @@ static void check_frame(const uni::Spec & spec, const std::set<uint32_t> & pad, 
 }
 
 /* ---- C17 ---- */
+/* an encoder or decoder that does not return is a violation of the item at hand, not an infrastructure timeout:
+ * SIGALRM (default action) ends the child and the parent reports the item; re-armed every 64 items */
+static inline void tick() { static unsigned n = 0; if ((n++ & 63) == 0) alarm(180); }
+
 static void check_c17(const std::string & only, bool do_factory) {
     /* factory: every code */
     std::map<uint32_t, const refl::ClassInfo *> expect;
@@ -360,6 +367,7 @@ static void check_c02_image(const std::vector<uint8_t> & img, const std::string 
     auto try_derived = [&](size_t off, int width) {
         g_eval++;
         g_cur2->off = (long)off; g_cur2->width = width;
+        tick();
         std::string w;
         if (!decode_encode(d, out, nullptr, w)) return;            /* filter: must still decode completely */
         if (out.size() != d.size()) return;                       /* filter: same shape = same encoded length */
@@ -505,6 +513,7 @@ int main(int argc, char ** argv) {
                     if (args.num("list", 0)) { printf("%s\n", U[i].label().c_str()); continue; }
                     snprintf(g_cur->label, sizeof g_cur->label, "%s", U[i].label().c_str());
                     snprintf(g_cur->key, sizeof g_cur->key, "%s", selkey(U[i]).c_str());
+                    tick();
                     check_frame(U[i], pad, nopad);
                     if (samples.size() < 2 && (i % 97) == 5) samples.push_back(U[i].label());
                 }
@@ -518,6 +527,9 @@ int main(int argc, char ** argv) {
                 uni::Options uo;
                 std::vector<uni::Spec> U = uni::universe(uo, c.name);
                 for (size_t i = 0; i < U.size(); i++) {
+                    snprintf(g_cur->label, sizeof g_cur->label, "%s", U[i].label().c_str());
+                    snprintf(g_cur->key, sizeof g_cur->key, "%s", c.name);
+                    tick();
                     std::unique_ptr<ObjectHeaderBase> o(uni::build(U[i]));
                     MemFile mf;
                     o->write(mf);
@@ -533,6 +545,7 @@ int main(int argc, char ** argv) {
                     printf("E default:%s %s %zu\n", c.name, hex64(fnv64(mf.data.data(), mf.data.size())).c_str(), mf.data.size());
                 }
             } else if (mode == "c17") {
+                tick();
                 snprintf(g_cur->label, sizeof g_cur->label, "default-constructed %s", c.name);
                 snprintf(g_cur->key, sizeof g_cur->key, "%s", c.name);
                 check_c17(c.name, ci == 1 || !only.empty());
@@ -546,6 +559,7 @@ int main(int argc, char ** argv) {
         if (WIFEXITED(status) && (WEXITSTATUS(status) == 0 || WEXITSTATUS(status) == 3)) { if (WEXITSTATUS(status)) rc = 1; continue; }
         std::string err = vx::read_tail(errfile, 3000);
         std::string kind = err.find("AddressSanitizer") != std::string::npos ? "memory-error" : err.find("runtime error") != std::string::npos ? "undefined-behaviour" : "crash";
+        if (WIFSIGNALED(status) && WTERMSIG(status) == SIGALRM) kind = "no-return (encoding or decoding does not end within 180 s)";
         std::string sum;
         std::istringstream es(err);
         for (std::string line; std::getline(es, line);) if (line.find("SUMMARY") != std::string::npos || line.find("runtime error") != std::string::npos) { sum = line; break; }
